@@ -32,6 +32,16 @@ claimed = {
          "A1-A5, A9, A10", "5"),
  "C13": ("proof", "Neutrality and monotonicity as conjuncts of the temporal/environmental family postconditions (temporal with all Not Defined === base, temporal <= base, v2 TD:N => 0) plus spec-side lemma families (v3 environmental equations with all metrics Not Defined collapse to the temporal ones except scope-changed 3.1: 5,184 ground lemma instances; Modified X = base by the eff_ contracts).",
          "A5, A9, A10; rests on the C02/C03/C05 stage obligations but not on C05's refuted adjusted-base equation", "5"),
+ "C15": ("proof", "Frame obligations ('modifies nothing', or the declared fields of the receiver's own objects for Decode/decodeOne) on every function under contract of the five packages, discharged per path and heap field; global frame G1 checked syntactically every run (no write to / escape of package-level state); constructors allocate fresh objects. Purity, determinism and history-freedom of all finite call sequences follow by induction with the frame as inductive step (meta step in the evidence).",
+         "A1-A4, A6, A7, A10; client code mutating exported tables is outside the property", "5"),
+ "C16": ("proof", "Sufficient condition decided deductively (same obligations as C15): all operations named in the property write only goroutine-owned memory and only read shared objects and tables, hence no data race and sequential equivalence by the Go memory model + determinism (meta argument, stated as such). Does not decide correctly synchronised shared mutable state (would be reported) nor races inside dependencies (A8).",
+         "A8 (dependencies race-free), A1-A4, A6, A7, A10; the schedule quantifier is discharged by a meta argument, not by the solver", "5"),
+ "C17": ("proof", "One postcondition per exported report field (63 own fields + the embedded reports' fields) relating it to the exact summary of the title / value-name function of the metric it is named after at the requested language, to the same level's Encode/Score/Severity call (call-site ghosts) and to the version label; option lists abstracted by the selected language, tied to the real closures by exact execution of newOptions with 0/1/2 options.",
+         "A5, A7, A10, A-opt (option-list abstraction)", "5"),
+ "C18": ("proof", "All 52 name functions executed symbolically (symbolic enumeration integer and language tag): non-empty for every input, Unknown/未定義 off-range; via exact function summaries: English for every tag other than the Japanese tag, pairwise distinct names per metric and language (ground lemma families), Modified value name = base value name.",
+         "A7 (language.Tag compares with ==), A10", "5"),
+ "C19": ("proof", "Export wrappers proved faithful and fail-clean RELATIVE to an uninterpreted model of text/template, io.Copy and bytes.Buffer (A6): success => reader content = template output and nil error; parse/exec failure, nil/failing reader => nil reader + ErrInvalidTemplate only; nil report => ErrNullPointer; ExportWith = ExportWithString on the reader's content.",
+         "A6 (text/template, io.Copy, bytes.Buffer assumed deterministic / non-panicking; nothing is proved about text/template itself), A2, A4, A10", "5"),
  "C20": ("proof", "Symbolic contracts (all strings, all integers) on every Get<Metric>, String, Value, IsUnknown/IsValid/IsDefined/IsChanged of the 36 metric types and the version printer/parser against tables written from the FIRST documents: parse/print inverse, everything else unknown, weights equal the specification (scope-dependent PR, Modified falls back to base).",
          "A10; map iteration modelled as unordered", "5"),
 }
